@@ -411,3 +411,14 @@ Fixpoint fn_equiv_mod_existence (fuel : nat) (f : fnode) (t : rtree) : bool :=
   end.
 Definition zero_gauges_existence_only (dirty_ops dirty_segs : nat) (store : fnode) (r : trs) : bool :=
   fn_equiv_mod_existence 8 store (tref_now r).
+
+(* C07: what a full compaction must leave in every collection of the footer
+   tree: at most one segment, keys strictly ascending, no deletion marker *)
+Fixpoint fnode_full_shape_ok (f : fnode) : bool :=
+  match f with
+  | FN segs _ kids =>
+      Nat.leb (length segs) 1 &&
+      forallb (fun s => sortedb s && forallb (fun e => match snd e with ODel => false | _ => true end) s) segs &&
+      (fix go (l : list (cname * fnode)) : bool :=
+         match l with [] => true | (_, c) :: r => fnode_full_shape_ok c && go r end) kids
+  end.
